@@ -162,7 +162,8 @@ def gen_stream(rng, idx, body_sizes=None, force=None):
     """One abstract stream: request and response header fields, bodies, trailers, gRPC or not."""
     kind = force or rng.choice(["plain", "plain", "grpc", "grpc", "grpc-trailers-only", "grpc-req-only", "grpc-status-only"])
     method = rng.choice(["GET", "POST", "POST", "PUT", "DELETE", "PATCH", "OPTIONS"])
-    path = "/" + "/".join(rand_token(rng) for _ in range(rng.randint(0, 3)))
+    path = "/" + "/".join(rand_token(rng) + (rng.choice(["%20", "%2F", "%2f", "%41", "%C3%A9", "+", "%25"]) + rand_token(rng, 0, 3) if rng.random() < 0.15 else "")
+                          for _ in range(rng.randint(0, 3)))
     if rng.random() < 0.3:
         path += "?" + "&".join("%s=%s" % (rand_token(rng, 1, 3), rand_token(rng, 0, 4)) for _ in range(rng.randint(1, 3)))
     req = [(":method", method), (":scheme", rng.choice(["http", "https"])), (":path", path),
